@@ -150,11 +150,62 @@ def find_loops(body_stripped):
     return res
 
 
+def blank_comments(text):
+    """The text of `//` and `/* */` comments is dropped (replaced by spaces of the same length, the comment markers are
+    kept): anchors and rewrite rules must never match commented-out code, and comments carry nothing to verify."""
+    out = []
+    i, n = 0, len(text)
+    while i < n:
+        c = text[i]
+        if text.startswith('//', i):
+            j = text.find('\n', i)
+            j = n if j < 0 else j
+            out.append('//' + ' ' * (j - i - 2))
+            i = j
+        elif text.startswith('/*', i):
+            depth, j = 1, i + 2
+            while j < n and depth:
+                if text.startswith('/*', j):
+                    depth += 1; j += 2
+                elif text.startswith('*/', j):
+                    depth -= 1; j += 2
+                else:
+                    j += 1
+            body = text[i:j]
+            inner = ''.join(ch if ch == '\n' else ' ' for ch in body[2:-2])
+            out.append('/*' + inner + '*/' if body.endswith('*/') and len(body) >= 4 else body)
+            i = j
+        elif c == '"' or (c in 'rb' and re.match(r'b?r?#*"', text[i:i + 8]) and (i == 0 or not (text[i - 1].isalnum() or text[i - 1] == '_'))):
+            m = re.match(r'b?r(#*)"', text[i:i + 10])
+            if m:
+                endtok = '"' + m.group(1)
+                start = i + m.end()
+                j = text.find(endtok, start)
+                j = n if j < 0 else j + len(endtok)
+            else:
+                j = i + (2 if c == 'b' else 1)
+                while j < n and text[j] != '"':
+                    j += 2 if text[j] == '\\' else 1
+                j = min(n, j + 1)
+            out.append(text[i:j])
+            i = j
+        elif c == "'":
+            m = re.match(r"'(\\.[^']*|[^'\\])'", text[i:i + 12])
+            if m:
+                out.append(m.group(0)); i += m.end()
+            else:
+                out.append(c); i += 1
+        else:
+            out.append(c)
+            i += 1
+    return ''.join(out)
+
+
 def weave_fn(unit, tmpl_rel, blk):
     """blk: dict(addr, src, kv, flags, sections[(kind,arg,lines[(text,lineno)])], line)"""
     src = get_source(blk['src'])
     start, end, first_line, header = src.find_fn(blk['addr'])
-    orig = src.text[start:end]
+    orig = blank_comments(src.text[start:end])
     rec = FnRec()
     rec.addr = blk['addr']
     rec.src = blk['src']
